@@ -153,7 +153,8 @@ Section WithFacts.
 
   Lemma allowed_good x st c field v : st_good x st -> out_good x (h_allowed F x st c field v).
   Proof.
-    intros Hst o Ho. unfold h_allowed in Ho. destruct (is_iterable v && negb (is_str v)).
+    intros Hst o Ho. unfold h_allowed, h_allowed0 in Ho. generalize dependent (allowed_members c). clear c. intros c Ho.
+    destruct (is_iterable v && negb (is_str v)).
     - destruct (py_iter v); [|injection Ho as <-; exact Hst].
       destruct (filter_not_in l c) as [[|u us]| |]; cbn [bind] in Ho; try discriminate; [injection Ho as <-; exact Hst|].
       fe Ho. injection Ho as <-. eapply file_error_good0; eassumption.
@@ -164,7 +165,7 @@ Section WithFacts.
   Lemma contains_good x st c field v : st_good x st -> out_good x (h_contains F x st c field v).
   Proof.
     intros Hst o Ho. unfold h_contains in Ho. destruct (py_iter v); [|injection Ho as <-; exact Hst].
-    destruct (if negb (is_iterable c) || is_str c then (if hashable c then Some [c] else None) else py_set c); [|discriminate].
+    destruct (if negb (is_iterable c) || is_str c then Some [c] else option_map dedup (py_iter c)); [|discriminate].
     destruct (filter _ l0); [injection Ho as <-; exact Hst|].
     fe Ho. injection Ho as <-. eapply file_error_good0; eassumption.
   Qed.
